@@ -92,6 +92,10 @@ def run(ctx):
     facts = [json.loads(l) for l in p.stdout.splitlines() if l.strip()]
     if not any(f["ev"] == "Edge" for f in facts) or not any(f["ev"] == "Mutex" for f in facts):
         raise E.Infra("lockgraph extracted no lock graph")
+    for f in facts:
+        # the functions of the witness sites, without file positions (TLC has no substring operator on strings)
+        if f["ev"] in ("Close", "CloseUnder"):
+            f["fns"] = [w.split(" @")[0] for w in f.get("witness", [])]
     rows = [{"ev": "reset", "sc": 0}] + facts
     nf = {}
     for f in facts:
